@@ -68,6 +68,14 @@
      run by the interpreter, executes).  The same source compiled with parallel=True races on shared rows: not described.
    * a variable that is an int on one path of an `if` and a float on the other (`g = clip(..)` / `g = 0`) is a float after the
      join: the int branch is converted with [of_Z] (Python converts the int where it first meets a float: same value);
+   * `np.all(a == b)` with a, b int arrays OF THE SAME LENGTH is [zall_eq a b]: every pair of entries at the same position is
+     equal (true for two empty arrays).  With different lengths numpy broadcasts or raises (numba: raises): [zall_eq] then
+     compares the common prefix only, outside the subset's meaning -- link theorems use it under a length test
+     (`a.shape[0] == b.shape[0] and np.all(a == b)`) or carry the length hypothesis;
+   * `for v in a: body` with a a 1-d float array the function does not store into is [for_each a body state]: the body is run
+     once per element, in order, v being the element (a float scalar);
+   * a function whose `return`s give an int on one path and a float on another returns a float (numba unifies the return type):
+     the int value is converted with [of_Z];
    * `a % b` on ints is [Z.modulo] (sign of the divisor, as in Python, for b <> 0; b = 0 raises in Python: outside);
      `int(x)` of a float is the truncation [ntrunc]. *)
 From Coq Require Import List ZArith Bool.
@@ -76,6 +84,9 @@ Import ListNotations.
 
 Definition for_range {S : Type} (lo hi : Z) (f : Z -> S -> S) (s : S) : S :=
   fold_left (fun s k => f (lo + Z.of_nat k)%Z s) (seq 0 (Z.to_nat (hi - lo))) s.
+
+(* `for v in a: body`: the elements of a in order *)
+Definition for_each {A S : Type} (l : list A) (f : A -> S -> S) (s : S) : S := fold_left (fun s a => f a s) l s.
 
 (* `while c: body` under an explicit iteration budget: the state after at most [fuel] iterations and a flag
    telling whether the condition was false when the loop stopped (false = budget exhausted). *)
@@ -112,6 +123,8 @@ Definition imnth (m : list (list Z)) (i j : Z) : Z := znth 0%Z (znth [] m i) j.
 Definition msize {A : Type} (m : list (list A)) : Z := (zlen m * zlen (znth [] m 0))%Z.
 (* `k in s` where s = set(<int array a>): membership in the list of elements (the only operation available on such a set) *)
 Definition zmem (k : Z) (a : list Z) : bool := existsb (Z.eqb k) a.
+(* `np.all(a == b)` on int arrays of equal length *)
+Definition zall_eq (a b : list Z) : bool := forallb (fun p => Z.eqb (fst p) (snd p)) (combine a b).
 (* `a[:n]`: the first n elements; a negative n means len(a) + n (and nothing if that is negative too) *)
 Definition zslice_to {A : Type} (l : list A) (n : Z) : list A :=
   firstn (Z.to_nat (if (n <? 0)%Z then (zlen l + n)%Z else n)) l.
